@@ -174,21 +174,33 @@ def normal(x):
     raise TypeError(type(x))
 
 
+_MISSING = object()
+
+
 def same(a, b):
     """Type-strict, NaN-aware, sign-of-zero-aware equality of JSON values."""
     ta = type(a)
     if ta is not type(b):
         return False
+    if ta is dict:
+        if len(a) != len(b):
+            return False
+        for k, v in a.items():
+            w = b.get(k, _MISSING)
+            if w is _MISSING or not same(v, w):
+                return False
+        return True
+    if ta is list:
+        if len(a) != len(b):
+            return False
+        for x, y in zip(a, b):
+            if not same(x, y):
+                return False
+        return True
     if ta is float:
         if a != a:
             return b != b
         return a == b and math.copysign(1.0, a) == math.copysign(1.0, b)
-    if ta is dict:
-        if a.keys() != b.keys():
-            return False
-        return all(same(v, b[k]) for k, v in a.items())
-    if ta is list:
-        return len(a) == len(b) and all(same(x, y) for x, y in zip(a, b))
     return a == b
 
 
